@@ -272,7 +272,7 @@ theorem closureTab_spec {inp : RunInput} {tab : List Den} {k : Nat} (hdd : Sound
     (fun y hy => iterN_mono _ _ _ y (mem_dedup.mpr hy)) hc⟩
 
 /-- the monitor holds of every trace of the model for any sound table under which the closure is determined -/
-theorem monitor_denOf {inp : RunInput} [NoFailDeliver inp] {s : Sys} (hr : Reach inp s ∨ PReach inp s) (nTasks : Nat) {tab : List Den}
+theorem monitor_denOf {inp : RunInput} {s : Sys} (hr : Reach inp s ∨ PReach inp s) (nTasks : Nat) {tab : List Den}
     {k : Nat} (hdd : SoundDD inp (ddTab tab)) (hdet : determinedOf inp tab k (closureTab inp tab k) = true)
     (complete : Bool) (hc : complete = true → s.rpc = .halted ∧ s.halt = .none ∧ s.stop = false) :
     monDenOf tab (closureTab inp tab k) nTasks (trace inp s) (exitCode s) complete = true := by
@@ -303,7 +303,7 @@ theorem monitor_denOf {inp : RunInput} [NoFailDeliver inp] {s : Sys} (hr : Reach
 
 /-- the monitor `monC08DenC` holds of every trace of the model on every input (calc_dep included) for which the
     executable denotation is determined -/
-theorem C08_monitor_denC {inp : RunInput} [NoFailDeliver inp] {s : Sys} (hr : Reach inp s ∨ PReach inp s) (nTasks : Nat)
+theorem C08_monitor_denC {inp : RunInput} {s : Sys} (hr : Reach inp s ∨ PReach inp s) (nTasks : Nat)
     (hdet : determinedC inp nTasks = true) (complete : Bool)
     (hc : complete = true → s.rpc = .halted ∧ s.halt = .none ∧ s.stop = false) :
     monC08DenC inp nTasks (trace inp s) (exitCode s) complete = true :=
